@@ -175,6 +175,9 @@ def check(run, replay=None):
         def sub(name):
             return random.Random("C13/%s/%d" % (name, run.seed))
         rng_follow, rng_list, rng_raw, rng_grp = sub("follow"), sub("list"), sub("raw"), sub("groups")
+        rng_name = sub("names")
+        for i in range(40 if run.tier == "quick" else 800):
+            cases.append(("names%d" % i, G.gen_name_case(rng_name, k)))
         for i, ls in enumerate(G.boundary_cases(rng, k)):
             cases.append(("boundary%d" % i, ls))
         for i in range(60 if run.tier == "quick" else 1500):
